@@ -127,6 +127,7 @@ check_identity(int x)
     return 1;
 }
 
+static int USE_TABLE = 1;
 int
 main(int argc, char **argv)
 {
@@ -135,15 +136,29 @@ main(int argc, char **argv)
     int rc, f, i;
     mc_init();
     mc_install_crash_hooks();
-    BASE = atof(mc_arg(argc, argv, "--base", "1.0001"));
+    {
+        /* --base 1.0001, or pow2:K for the base 2^(1/K): its largest table entry is round(K) >> shift, which puts the
+         * table exactly on, below or above a change of the entry width (256, 65536) */
+        const char *bs = mc_arg(argc, argv, "--base", "1.0001");
+        BASE = strncmp(bs, "pow2:", 5) == 0 ? pow(2.0, 1.0 / atof(bs + 5)) : atof(bs);
+    }
     SHIFT = atoi(mc_arg(argc, argv, "--shift", "0"));
     LNB = logl((long double)BASE);
-    lm = logmath_init(BASE, SHIFT, 1);
+    USE_TABLE = atoi(mc_arg(argc, argv, "--table", "1"));
+    lm = logmath_init(BASE, SHIFT, USE_TABLE);
     if (!lm)
         return 2;
+    if (logmath_get_shift(lm) != SHIFT || fabs(logmath_get_base(lm) - BASE) > 0) {
+        mc_viol("C19/object-reports-other-parameters", "parameters", "created with base %.17g shift %d, reports base %.17g shift %d", BASE, SHIFT,
+                logmath_get_base(lm), logmath_get_shift(lm));
+        mc_finish();
+        return 0;
+    }
     logmath_get_table_shape(lm, &TSIZE, &TWIDTH, NULL);
     ZERO = logmath_get_zero(lm);
-    snprintf(pfx, sizeof pfx, "base=%s shift=%d", mc_arg(argc, argv, "--base", "1.0001"), SHIFT);
+    snprintf(pfx, sizeof pfx, "base=%s shift=%d%s", mc_arg(argc, argv, "--base", "1.0001"), SHIFT, USE_TABLE ? "" : " no-table");
+    if (!USE_TABLE)
+        TSIZE = 2048; /* no table: only the conversions are judged (the property speaks of the table-driven addition) */
     if (cas) {
         char kind[16] = "";
         const char *k = strstr(cas, "kind=");
@@ -165,7 +180,7 @@ main(int argc, char **argv)
     mc_sample("%s table_size=%u width=%u zero=%d: add d in [0,%u] x r in {0,-1,-12345,zero+d+1} both orders; "
               "conversions v in [%ld,1000] x 5 fractions",
               pfx, TSIZE, TWIDTH, ZERO, TSIZE + 512, -2L * (long)TSIZE);
-    for (d = 0; d <= (long)TSIZE + 512; d++) {
+    for (d = 0; USE_TABLE && d <= (long)TSIZE + 512; d++) {
         int rs[4] = { 0, -1, -12345, 0 };
         rs[3] = (int)(ZERO + d + 1);
         for (i = 0; i < 4; i++) {
@@ -177,7 +192,7 @@ main(int argc, char **argv)
                 viol++;
         }
     }
-    for (i = -3; i <= 3; i++) {
+    for (i = -3; USE_TABLE && i <= 3; i++) {
         static const int xs[] = { 0, -1, 5, -12345, -100000 };
         int j;
         for (j = 0; j < 5; j++) {
@@ -190,7 +205,7 @@ main(int argc, char **argv)
     {
         char cd[160];
         snprintf(cd, sizeof cd, "%s kind=zero x=%d", pfx, ZERO);
-        if (logmath_add(lm, ZERO, ZERO) > ZERO)
+        if (USE_TABLE && logmath_add(lm, ZERO, ZERO) > ZERO)
             mc_viol("C19/zero-not-identity", cd, "zero+zero=%d > zero", logmath_add(lm, ZERO, ZERO));
     }
     for (v = -2L * (long)TSIZE; v <= 1000; v++)
@@ -202,7 +217,8 @@ main(int argc, char **argv)
             if (rc < 0)
                 viol++;
         }
-    mc_sample("%s kind=add d=%u r=-12345 -> +%d", pfx, TSIZE / 3, logmath_add(lm, -12345, -12345 - (int)(TSIZE / 3)) + 12345);
+    if (USE_TABLE)
+        mc_sample("%s kind=add d=%u r=-12345 -> +%d", pfx, TSIZE / 3, logmath_add(lm, -12345, -12345 - (int)(TSIZE / 3)) + 12345);
     mc_sample("%s kind=conv v=-%u f=2 -> %d", pfx, TSIZE / 2,
               logmath_log(lm, (double)expl(((long double)(-(long)(TSIZE / 2)) + 0.5L) * (1 << SHIFT) * LNB)));
     logmath_free(lm);
